@@ -12,6 +12,7 @@ import (
 	cmnBadger "github.com/oasisprotocol/oasis-core/go/common/badger"
 	"github.com/oasisprotocol/oasis-core/go/common/cbor"
 	"github.com/oasisprotocol/oasis-core/go/common/logging"
+	"github.com/oasisprotocol/oasis-core/go/common/verifhook"
 	"github.com/oasisprotocol/oasis-core/go/storage/mkvs/db/api"
 	"github.com/oasisprotocol/oasis-core/go/storage/mkvs/node"
 	"github.com/oasisprotocol/oasis-core/go/storage/mkvs/writelog"
@@ -447,6 +448,7 @@ func (d *badgerNodeDB) Finalize(roots []node.Root) error { // nolint: gocyclo
 			}
 		}
 	}
+	verifhook.Crash("pathbadger.go:Finalize:begin")
 
 	// All removals should be done at the end so in case finalization is interrupted, we can recover
 	// by simply redoing finalization. Flush batches here to ensure all node copying has been
@@ -454,9 +456,11 @@ func (d *badgerNodeDB) Finalize(roots []node.Root) error { // nolint: gocyclo
 	if err := batch.Flush(); err != nil {
 		return err
 	}
+	verifhook.Crash("pathbadger.go:Finalize:after-copy-batch-flush")
 	if err := batchMeta.Flush(); err != nil {
 		return err
 	}
+	verifhook.Crash("pathbadger.go:Finalize:after-copy-meta-flush")
 	batch = d.db.NewWriteBatchAt(versionToTs(version))
 	defer batch.Cancel()
 	batchMeta = d.db.NewWriteBatchAt(tsMetadata)
@@ -501,13 +505,16 @@ func (d *badgerNodeDB) Finalize(roots []node.Root) error { // nolint: gocyclo
 	if err := batch.Flush(); err != nil {
 		return err
 	}
+	verifhook.Crash("pathbadger.go:Finalize:after-delete-batch-flush")
 	if err := batchMeta.Flush(); err != nil {
 		return err
 	}
+	verifhook.Crash("pathbadger.go:Finalize:after-delete-meta-flush")
 
 	// Update last finalized version.
 	d.meta.setLastFinalizedVersion(version)
 	d.meta.commit(tx)
+	verifhook.Crash("pathbadger.go:Finalize:after-meta-commit")
 
 	// Clean multipart metadata if there is any.
 	if d.multipartVersion != multipartVersionNone {
@@ -515,6 +522,7 @@ func (d *badgerNodeDB) Finalize(roots []node.Root) error { // nolint: gocyclo
 			return err
 		}
 	}
+	verifhook.Crash("pathbadger.go:Finalize:end")
 	return nil
 }
 
@@ -615,18 +623,22 @@ func (d *badgerNodeDB) Prune(version uint64) error {
 		it.Close()
 		wtx.Discard()
 	}
+	verifhook.Crash("pathbadger.go:Prune:begin")
 
 	// Commit batch.
 	if err := batch.Flush(); err != nil {
 		return fmt.Errorf("mkvs/pathbadger: failed to flush batch: %w", err)
 	}
+	verifhook.Crash("pathbadger.go:Prune:after-batch-flush")
 	if err := batchMeta.Flush(); err != nil {
 		return fmt.Errorf("mkvs/pathbadger: failed to flush batch: %w", err)
 	}
+	verifhook.Crash("pathbadger.go:Prune:after-meta-batch-flush")
 
 	// Update metadata.
 	d.meta.setEarliestVersion(version + 1)
 	d.meta.commit(tx)
+	verifhook.Crash("pathbadger.go:Prune:end")
 
 	// Discard everything invalidated at or below the _new_ earliest version. E.g. there is no need
 	// to keep around any keys that were removed at `version + 1`.
@@ -713,7 +725,9 @@ func (d *badgerNodeDB) NewBatch(oldRoot node.Root, version uint64, chunk bool) (
 		if err != nil {
 			return nil, err
 		}
+		verifhook.Crash("pathbadger.go:NewBatch:begin")
 		d.meta.commit(tx)
+		verifhook.Crash("pathbadger.go:NewBatch:end")
 		// Start a fresh index.
 		lastIndex = new(atomic.Uint32)
 		lastIndex.Store(indexRootNode)
@@ -914,10 +928,12 @@ func (ba *badgerBatch) Commit(root node.Root) error {
 	// Record sequence number for the pending (non-finalized) root. We need to commit this before
 	// storing the root to make sure we can retry in case of a crash as otherwise the root can exist
 	// but its sequence number is not known.
+	verifhook.Crash("pathbadger.go:Commit:begin")
 	if err := ba.db.meta.setPendingRootSeqNo(root.Version, rootHash, ba.seqNo); err != nil {
 		return fmt.Errorf("mkvs/pathbadger: failed to set pending root seqno: %w", err)
 	}
 	ba.db.meta.commit(tx)
+	verifhook.Crash("pathbadger.go:Commit:after-seqno-commit")
 
 	if !ba.chunk {
 		// Store updated nodes (only needed until the version is finalized).
@@ -941,9 +957,11 @@ func (ba *badgerBatch) Commit(root node.Root) error {
 	if err := ba.batMeta.Flush(); err != nil {
 		return fmt.Errorf("mkvs/pathbadger: failed to flush batch: %w", err)
 	}
+	verifhook.Crash("pathbadger.go:Commit:after-meta-batch-flush")
 	if err := ba.bat.Flush(); err != nil {
 		return fmt.Errorf("mkvs/pathbadger: failed to flush batch: %w", err)
 	}
+	verifhook.Crash("pathbadger.go:Commit:end")
 
 	ba.Reset()
 	return ba.BaseBatch.Commit(root)
